@@ -4,9 +4,11 @@
     in an error monad: dereferencing a freed cell, reading an uninitialised key or value, freeing
     twice and [unwrap()] on [None] are errors.  PARTIAL: the theorems cover RawLRU's public
     operations (put with its three paths, get/get_mut, peek, remove, remove_lru, purge, resize,
-    Drop) for every history; the composite caches are covered by the structural audit, the
+    Drop) for every history, the separation step for several lists in one heap with nodes in
+    flight between them, and SegmentedCache built on it (promotion, demotion, every history, Drop);
+    TwoQueueCache, AdaptiveCache and WTinyLFUCache are covered by the structural audit, the
     poisoning allocator and the correspondence of the harness, not by a heap-level theorem. *)
-From VF Require Import Base Lru Heap HeapFacts HeapOps HeapRun.
+From VF Require Import Base Lru Slru SlruFacts Heap HeapFacts HeapOps HeapRun HeapPrim HeapFrame HeapMulti HeapSlruDef HeapSlru.
 From Coq Require Import List Arith Permutation.
 Import ListNotations.
 
@@ -74,6 +76,55 @@ Theorem C03_purge_resize_drop :
                 (forall x, outside q l x -> cells h' x = cells h x)).
 Proof. split; [exact h_purge_ok|split; [exact h_resize_ok|exact h_drop_ok]]. Qed.
 
+(** every public operation with its footprint: the list gains only freshly allocated addresses, the
+    addresses it loses are freed, no cell outside the list is touched *)
+Theorem C03_step_frame : forall h q s l o,
+  wf h q l -> entries l = items s -> hcap q = cap s ->
+  exists h' q' l', hstep h q o = HOk (h', q', snd (lstep s o)) /\ framed h q l h' q' l' /\
+                   entries l' = items (fst (lstep s o)) /\ hcap q' = cap (fst (lstep s o)).
+Proof. exact step_frame. Qed.
+
+(** separation: several lists in one heap, nodes in flight between them ([fam]: every list well formed,
+    footprints and in-flight nodes pairwise disjoint, every other cell free); an operation that stays
+    inside one list and the in-flight nodes keeps the family *)
+Theorem C03_fam_step : forall h F1 q l F2 fl s o,
+  fam h (F1 ++ (q, l) :: F2) fl -> entries l = items s -> hcap q = cap s ->
+  exists h' q' l', hstep h q o = HOk (h', q', snd (lstep s o)) /\ fam h' (F1 ++ (q', l') :: F2) fl /\
+                   entries l' = items (fst (lstep s o)) /\ hcap q' = cap (fst (lstep s o)) /\
+                   hhead q' = hhead q /\ htail q' = htail q /\ (fresh h <= fresh h')%nat.
+Proof. exact fam_step. Qed.
+
+(** a node leaves a list without being freed ... *)
+Theorem C03_remove_ent : forall h F1 q l1 a k v l2 F2 fl,
+  fam h (F1 ++ (q, l1 ++ (a, (k, v)) :: l2) :: F2) fl ->
+  exists h' q', h_remove_ent h q k = HOk (h', q', Some a) /\
+                fam h' (F1 ++ (q', l1 ++ l2) :: F2) ((a, (k, v)) :: fl) /\
+                hhead q' = hhead q /\ htail q' = htail q /\ hcap q' = hcap q /\ fresh h' = fresh h.
+Proof. exact fam_remove_ent_hit. Qed.
+
+(** ... and enters another one, pushing that list's least recently used node out when it is full *)
+Theorem C03_put_or_evict : forall h F1 q l a ek ev F2 fl1 n k v fl2,
+  fam h (F1 ++ (q, l ++ [(a, (ek, ev))]) :: F2) (fl1 ++ (n, (k, v)) :: fl2) ->
+  Base.find k (entries (l ++ [(a, (ek, ev))])) = None -> (hcap q <= length (l ++ [(a, (ek, ev))]))%nat ->
+  exists h' q', h_put_or_evict_nonnull h q n = HOk (h', q', Some a) /\
+                fam h' (F1 ++ (q', (n, (k, v)) :: l) :: F2) ((a, (ek, ev)) :: fl1 ++ fl2) /\
+                hhead q' = hhead q /\ htail q' = htail q /\ hcap q' = hcap q /\ fresh h' = fresh h.
+Proof. exact fam_put_or_evict_full. Qed.
+
+(** SegmentedCache on the heap: every operation refines Slru.v and keeps the two-list family *)
+Theorem C03_slru_step : forall h s ls o,
+  RS h s ls -> slru_inv ls ->
+  exists h' s' ls' r, hs_step h s o = HOk (h', s', r) /\ ls_step ls o = Ok (ls', r) /\ RS h' s' ls' /\ slru_inv ls'.
+Proof. exact slru_step_refines. Qed.
+
+Theorem C03_slru_history : forall pc fc os,
+  (1 <= pc)%nat -> (1 <= fc)%nat ->
+  exists h s ls outs h',
+    hs_run (fst (hs_new heap0 pc fc)) (snd (hs_new heap0 pc fc)) os = HOk (h, s, outs) /\
+    ls_run (slru_new pc fc) os = Ok (ls, outs) /\ RS h s ls /\
+    hs_drop h s = HOk h' /\ (forall a, cells h' a = Free).
+Proof. exact slru_history_safe. Qed.
+
 Print Assumptions C03_detach.
 Print Assumptions C03_attach.
 Print Assumptions C03_step.
@@ -81,3 +132,9 @@ Print Assumptions C03_new.
 Print Assumptions C03_recycle.
 Print Assumptions C03_history.
 Print Assumptions C03_purge_resize_drop.
+Print Assumptions C03_step_frame.
+Print Assumptions C03_fam_step.
+Print Assumptions C03_remove_ent.
+Print Assumptions C03_put_or_evict.
+Print Assumptions C03_slru_step.
+Print Assumptions C03_slru_history.
